@@ -12,7 +12,9 @@ CHECKS = {
              'the chunk loop of partial body lengths is proved by a two-state inductive loop contract (what is still to be read is untouched input, '
              'collected bodies are not touched, exactly the length octets are removed, the total grows by the chunk length; the induction over the '
              'iterations is the meta-argument) with whole chains compared natively against the recursive spec as bounded complement; '
-             'four-octet timestamps of aware datetimes are a bounded stand-in here (their deductive clauses are in C18/C08).',
+             'SubPackets.parse (areas accounted by the octets read; loop contracts) and the time-field writers are part of this check; bounded: '
+             'signatures by the independent signer whose subpacket lengths use every width RFC 4880 5.2.3.1 allows, in both areas; four-octet '
+             'timestamps of aware and naive datetimes, also in processes whose local zone is not UTC.',
         note=TB,
         technique='contract-based deductive verification: VCs generated from the Python AST of the real functions against sidecar '
                   'contracts, discharged by z3/cvc5; native replay of counter-models',
@@ -73,7 +75,10 @@ CHECKS = {
              'PubKeyV4.__bytearray__ to export the same body, publen() to be the length of the public MPI prefix of __bytearray__() for '
              'RSA/DSA/ElGamal public and secret (protected/unprotected) material, keyid/shortid to be the low 64/32 bits; the scenarios of the other '
              'modules that carry this tag are included: where the id is written (issuer, issuer fingerprint, recipient), where key packets are read, '
-             'and add_subkey (same algorithm, creation time and material after the conversion to a subkey packet).',
+             'and add_subkey (same algorithm, creation time and material after the conversion to a subkey packet); a packet that was READ '
+             '(parse, then __bytearray__ and fingerprint on the object it leaves) exports the body its fingerprint hashes, with a header length '
+             'that follows what is written (D43); Fingerprint.__bytes__ keeps leading zero octets. Bounded: keys in foreign MPI encodings, keys '
+             'whose fingerprint starts with a zero octet.',
         note=TB + '; EC materials (pyasn1 OID) and whole-history stability are bounded components',
         technique='contract-based deductive verification: VCs from the Python AST, externals uninterpreted; z3/cvc5',
         design_ref='6 (C18)'),
@@ -133,8 +138,10 @@ CHECKS = {
              'the prefix repeats its last two octets, else PGPDecryptionError; PKESK.decrypt_sk returns only if the 16-bit checksum matches; keyblob '
              'decryption only if the SHA-1 trailer / checksum matches; PGPMessage.decrypt returns only a message parsed from octets that passed those checks '
              'and maps every failure to PGPDecryptionError; PGPKey.decrypt refuses non-recipients, picks the session-key packet naming its id and algorithm, '
-             'delegates to the addressed subkey. "No modification yields a different plaintext" holds modulo the named hypothesis on SHA-1/CFB; the '
-             'bounded mutation component found two genuine gaps (D27, D28) recorded as known findings.',
+             'delegates to the addressed subkey; PGPKey.encrypt / PGPMessage.encrypt always write an integrity-protected container (whatever the '
+             'recipient advertises) and a message takes ONE data packet (a second one is refused). "No modification yields a different plaintext" '
+             'holds modulo the named hypothesis on SHA-1/CFB; the bounded mutation component found two genuine gaps (D27, D28) recorded as known '
+             'findings (D27 limited to blobs without clear text next to a container).',
         note=TB,
         technique='contract-based deductive verification of the acceptance paths; bounded mutation component (bit flips, truncations, splices, downgrade)',
         design_ref='6 (C04)'),
